@@ -1,0 +1,143 @@
+//! Verification hooks, compiled only with `--cfg num_bigint_verif`.
+//!
+//! Nothing in here changes what the crate computes unless a harness sets the
+//! root-guess knob; the probe counters only report which internal regimes ran.
+
+use crate::biguint::IntDigits;
+use crate::BigUint;
+use core::sync::atomic::{AtomicI64, AtomicU32, AtomicU64, Ordering};
+
+pub const ASM_ADD_BLOCKS: usize = 0;
+pub const ADD_TAIL: usize = 1;
+pub const ADD_CARRY_HI: usize = 2;
+pub const ASM_SUB_BLOCKS: usize = 3;
+pub const SUB_TAIL: usize = 4;
+pub const SUB_BORROW_HI: usize = 5;
+pub const MAC3_LONG: usize = 6;
+pub const MAC3_HALF: usize = 7;
+pub const MAC3_KARATSUBA: usize = 8;
+pub const MAC3_TOOM3: usize = 9;
+pub const DIV_ADD_BACK: usize = 10;
+pub const DIV_TOP_EQUAL: usize = 11;
+pub const NORMALIZE_TRUNCATE: usize = 12;
+pub const NORMALIZE_SHRINK: usize = 13;
+pub const FIXPOINT_UP: usize = 14;
+pub const FIXPOINT_DOWN: usize = 15;
+pub const GUESS_FLOAT: usize = 16;
+pub const GUESS_SCALED: usize = 17;
+pub const GUESS_MAX_BITS: usize = 18;
+pub const RAND_RETRY_BELOW: usize = 19;
+pub const RAND_RETRY_BIGINT: usize = 20;
+pub const N_PROBES: usize = 21;
+
+pub const PROBE_NAMES: [&str; N_PROBES] = [
+    "asm_add_blocks",
+    "add_tail",
+    "add_carry_hi",
+    "asm_sub_blocks",
+    "sub_tail",
+    "sub_borrow_hi",
+    "mac3_long",
+    "mac3_half",
+    "mac3_karatsuba",
+    "mac3_toom3",
+    "div_add_back",
+    "div_top_equal",
+    "normalize_truncate",
+    "normalize_shrink",
+    "fixpoint_up",
+    "fixpoint_down",
+    "guess_float",
+    "guess_scaled",
+    "guess_max_bits",
+    "rand_retry_below",
+    "rand_retry_bigint",
+];
+
+#[allow(clippy::declare_interior_mutable_const)]
+const Z: AtomicU64 = AtomicU64::new(0);
+static PROBES: [AtomicU64; N_PROBES] = [Z; N_PROBES];
+
+#[inline]
+pub fn hit(id: usize) {
+    PROBES[id].fetch_add(1, Ordering::Relaxed);
+}
+
+#[inline]
+pub fn hit_n(id: usize, n: u64) {
+    PROBES[id].fetch_add(n, Ordering::Relaxed);
+}
+
+pub fn read(id: usize) -> u64 {
+    PROBES[id].load(Ordering::Relaxed)
+}
+
+pub fn reset() {
+    for p in PROBES.iter() {
+        p.store(0, Ordering::Relaxed);
+    }
+}
+
+/// Capacity (in native digits) of the buffer behind a value.
+pub fn capacity_of(x: &BigUint) -> usize {
+    IntDigits::capacity(x)
+}
+
+/// Number of native digits stored.
+pub fn len_of(x: &BigUint) -> usize {
+    IntDigits::len(x)
+}
+
+// Root initial-guess knob. Mode 0 (default) leaves the guess untouched.
+pub const GUESS_IDENTITY: u32 = 0;
+/// Replace the guess by `2^max_bits`, exactly what a build without `std` uses.
+pub const GUESS_NO_FLOAT: u32 = 1;
+/// Add `param` (may be negative, saturating at 1) to the guess.
+pub const GUESS_OFFSET: u32 = 2;
+/// Add `guess >> param` (param > 0) or subtract `guess >> -param` (param < 0).
+pub const GUESS_RELATIVE: u32 = 3;
+
+static GUESS_MODE: AtomicU32 = AtomicU32::new(0);
+static GUESS_PARAM: AtomicI64 = AtomicI64::new(0);
+
+pub fn set_guess(mode: u32, param: i64) {
+    GUESS_MODE.store(mode, Ordering::Relaxed);
+    GUESS_PARAM.store(param, Ordering::Relaxed);
+}
+
+pub fn perturb_guess(guess: BigUint, max_bits: u64) -> BigUint {
+    let param = GUESS_PARAM.load(Ordering::Relaxed);
+    let one = BigUint::from(1u32);
+    let g = match GUESS_MODE.load(Ordering::Relaxed) {
+        GUESS_NO_FLOAT => one.clone() << max_bits,
+        GUESS_OFFSET => {
+            if param >= 0 {
+                guess + BigUint::from(param as u64)
+            } else {
+                let d = BigUint::from(param.unsigned_abs());
+                if guess > d {
+                    guess - d
+                } else {
+                    one.clone()
+                }
+            }
+        }
+        GUESS_RELATIVE => {
+            if param > 0 {
+                let d = &guess >> (param as u64);
+                guess + d
+            } else if param < 0 {
+                let d = &guess >> (param.unsigned_abs());
+                guess - d
+            } else {
+                guess
+            }
+        }
+        _ => guess,
+    };
+    if g == BigUint::from(0u32) {
+        one
+    } else {
+        g
+    }
+}
